@@ -102,6 +102,38 @@ def flips(pi, idx: int) -> bool:
     return True
 
 
+def mark_or_flip_rule(rep, rid: str, handler_infos) -> None:
+    """every effectful commit of a handler path marks the incoming message in the same commit, or provably leaves the status
+    the handler's entry guard requires (a redelivery is then absorbed), or is a reviewed exception (NO_MARK)"""
+    seq5_seen: set = set()
+    for pi in handler_infos:
+        after_syn = commits_after_synthetic(pi)
+        for i, c in enumerate(pi.seq):
+            if i in after_syn:
+                continue
+            a = atoms(c)
+            if not a or a == ("mark",):
+                continue
+            cs = commit_shape(c)
+            key = (pi.handler, cs, tuple(sorted(str(sorted(e.get("status"))) for e in c.effects if e.kind == "store_stage" and e.get("own"))))
+            if key in seq5_seen:
+                continue
+            seq5_seen.add(key)
+            if "mark" in a:
+                rep.ok(rid, f"{pi.handler}:{cs}", "marks the incoming message in the same commit", c.site[0], c.site[1])
+                continue
+            if flips(pi, i):
+                rep.ok(rid, f"{pi.handler}:{cs}", "flips the guarded status (redelivery is absorbed by the entry guard)", c.site[0], c.site[1])
+                continue
+            listed = [r for h, rx, r in NO_MARK if h == pi.handler and re.fullmatch(rx, cs)]
+            if listed:
+                rep.ok(rid, f"{pi.handler}:{cs}", "listed: " + listed[0], c.site[0], c.site[1])
+                continue
+            rep.fail(rid, pi.handler, f"commit {cs} writes state / pushes a continuation without marking the incoming message and without provably leaving the guarded status: "
+                     "a crash before the processor's own mark re-runs it", c.site[0], c.site[1], disc=cs)
+
+
+
 def run(ctx, rep) -> None:
     prog = ctx.prog
     rep.rule("C01.R1", "every handler path: mark of the incoming message only in the last commit; multi-commit paths match a reviewed shape; every unmarked commit flips the guard status or is a reviewed idempotent step")
@@ -177,32 +209,7 @@ def run(ctx, rep) -> None:
     rep.floor("distinct multi-commit shapes", len(multi_seen), 10)
 
     # ---- R1: SEQ-5 mark / flip / listed ----------------------------------------------------------------
-    seq5_seen: set = set()
-    for pi in handler_infos:
-        after_syn = commits_after_synthetic(pi)
-        for i, c in enumerate(pi.seq):
-            if i in after_syn:
-                continue
-            a = atoms(c)
-            if not a or a == ("mark",):
-                continue
-            cs = commit_shape(c)
-            key = (pi.handler, cs, tuple(sorted(str(sorted(e.get("status"))) for e in c.effects if e.kind == "store_stage" and e.get("own"))))
-            if key in seq5_seen:
-                continue
-            seq5_seen.add(key)
-            if "mark" in a:
-                rep.ok("C01.R1.SEQ5", f"{pi.handler}:{cs}", "marks the incoming message in the same commit", c.site[0], c.site[1])
-                continue
-            if flips(pi, i):
-                rep.ok("C01.R1.SEQ5", f"{pi.handler}:{cs}", "flips the guarded status (redelivery is absorbed by the entry guard)", c.site[0], c.site[1])
-                continue
-            listed = [r for h, rx, r in NO_MARK if h == pi.handler and re.fullmatch(rx, cs)]
-            if listed:
-                rep.ok("C01.R1.SEQ5", f"{pi.handler}:{cs}", "listed: " + listed[0], c.site[0], c.site[1])
-                continue
-            rep.fail("C01.R1.SEQ5", pi.handler, f"commit {cs} writes state / pushes a continuation without marking the incoming message and without provably leaving the guarded status: "
-                     "a crash before the processor's own mark re-runs it", c.site[0], c.site[1], disc=cs)
+    mark_or_flip_rule(rep, "C01.R1.SEQ5", handler_infos)
 
     # ---- R2: SEQ-3 on paths ---------------------------------------------------------------------------
     in_txn_autos = 0
